@@ -2,6 +2,7 @@
 from __future__ import annotations
 
 import copy
+import json
 import os
 import warnings
 from fractions import Fraction
@@ -98,6 +99,30 @@ def drop_row_from_partition(parts, j):
     return [c for c, orig in zip(out, parts) if c > 0 or orig == 0]
 
 
+def apply_change(rows, ws, ch):
+    """one in-place change of a 'mutate' case on the expected content (plain python lists); False: does not apply"""
+    if ch["op"] == "set":
+        if ch["at"] >= len(rows):
+            return False
+        rows[ch["at"]] = list(ch["rows"][0])
+        if ws is not None:
+            ws[ch["at"]] = ch["ws"][0]
+    else:
+        rows.extend(list(r) for r in ch["rows"])
+        if ws is not None:
+            ws.extend(ch["ws"])
+    return True
+
+
+def final_content(case):
+    """(rows, weights) of a 'mutate' case after all its changes (the growable containers take every one of them)"""
+    rows = [list(r) for r in case["data"]]
+    ws = None if case["weights"] is None else list(case["weights"])
+    for ch in case["changes"]:
+        apply_change(rows, ws, ch)
+    return rows, ws
+
+
 class C17:
     ID = "C17"
     N_QUICK = 170
@@ -114,13 +139,26 @@ class C17:
             "dict); refused inputs (non-numeric, nulls in data or weights, DataFrame to h1, Series to h, scalar, wrong shape / dim / number "
             "of axis names, frames without usable columns, unknown columns, non-2-D dask arrays); outcomes only recorded where the "
             "property is silent (adaptive=False, invalid method name, weights with dask, one-column frames to histogram()); conversions to / "
-            "from xarray, pandas Series / DataFrame / IntervalIndex (gapped bins too) and the two Geant4 CSV files. non-trivial = at least "
-            "one entry inside a bin; distinct = case hash")
+            "from xarray, pandas Series / DataFrame / IntervalIndex (gapped bins too) and the two Geant4 CSV files; every 8th case: one "
+            "data set (d = 1..3, floats or python ints, NaN, weights in a container of the same kind) in every mutable container (numpy "
+            "array 1-D / 2-D / (n, d) C- and Fortran-ordered, list, nested list, lists of coordinates, pandas Series / DataFrame, polars "
+            "Series / DataFrame) handed to physt, changed in place (element / row assignment, append, extend, .loc enlargement, vstack "
+            "in place; 1..3 changes) and handed to physt again through the same form (plain facades h1 / h / h2 / h3, iterator, (name, "
+            "values), .physt accessors of pandas and polars) and once with the form varying from call to call: each call = the numpy "
+            "array built from the content expected at that moment, and no call changes its container; every 8th case: an r x c table "
+            "(r = 1..4, c = 1..6, with its transpose; floats or ints, NaN, weights nested alike or as array) as tuple / list of tuples / "
+            "lists / arrays / a mixture to h1 (also as (str name, values), which alone names the histogram), h (c = 2, 3), h2 (two rows; "
+            "two nested tables), h3 (three arrays) = the same call on np.asarray(container); ragged tables and (number, values) only "
+            "recorded. non-trivial = at least one entry inside a bin; distinct = case hash")
     EXTRA_TRUST = ["pandas, polars, dask and xarray conversions are exercised, not modelled"]
     ASSUMPTIONS = ["the reference is physt's own result on the equivalent numpy array, itself tied to the model by C01 / C02"]
 
     # ------------------------------------------------------------------ generators
     def gen_case(self, rng, k, tier):
+        if k % 8 == 3:
+            return self.gen_mutate(rng)
+        if k % 8 == 6:
+            return self.gen_nested(rng)
         if rng.random() < 0.3:
             return self.gen_dask(rng)
         d = rng.choice([1, 1, 2, 3])
@@ -187,10 +225,91 @@ class C17:
                 "tags": [f"d:{d}", "kind:dask"] + [f"open:{t}" for t in opened]}
         return case
 
+    # ---- containers changed in place between two calls / nested python containers
+    @staticmethod
+    def _gen_axes(rng, d):
+        """d explicit binnings (json) with their pairs"""
+        if d == 1:
+            pairs, _ = gen1.rising_bins(rng)
+            return [gen1.binning_json(pairs, form="static_obj")], [pairs]
+        axes = [gennd.axis_binning(rng, maxbins=3, allow_fixed=False) for _ in range(d)]
+        return [a[0] for a in axes], [a[1] for a in axes]
+
+    @staticmethod
+    def _gen_rows(rng, axes_pairs, n, ints, nan_share):
+        """n rows over the given axes: the usual edge-centred doubles, or python ints around the bins"""
+        if not ints:
+            return gennd.rows_for(rng, axes_pairs, n, nan_share=nan_share)
+        rows = []
+        for _ in range(n):
+            r = []
+            for pairs in axes_pairs:
+                lo, hi = pairs[0][0], pairs[-1][1]
+                r.append(rng.randint(int(np.floor(lo)) - 1, int(np.ceil(hi)) + 1))
+            rows.append(r)
+        return rows
+
+    @staticmethod
+    def _gen_w(rng, wk, m):
+        if wk is None:
+            return None
+        return [rng.randint(0, 5) if wk == "int64" else rng.randint(0, 24) / 4 for _ in range(m)]
+
+    def gen_mutate(self, rng):
+        """one data set entered through every mutable container, 1..3 in-place changes (element / row assignment, append, extend),
+        the same container handed to physt before and after each"""
+        d = rng.choice([1, 1, 1, 2, 2, 3])
+        n = rng.choice([2, 4, 5, 8, 12])
+        ints = rng.random() < 0.25
+        nan_share = 0 if ints else rng.choice([0, 0.15])
+        binning, axes_pairs = self._gen_axes(rng, d)
+        rows = self._gen_rows(rng, axes_pairs, n, ints, nan_share)
+        ws, wk = gen1.weights_for(rng, n, kinds=["none", "none", "int", "dyadic"])
+        changes, cur = [], n
+        for _ in range(rng.choice([1, 1, 2, 3])):
+            op = rng.choice(["set", "set", "append", "extend"])
+            if op == "set":
+                m = 1
+                ch = {"op": "set", "at": rng.randrange(cur)}
+            else:
+                m = rng.choice([1, 1, 2, 3])
+                ch = {"op": op}
+                cur += m
+            # a change may bring a NaN in (or, overwriting one, take it out)
+            ch["rows"] = self._gen_rows(rng, axes_pairs, m, ints, nan_share if rng.random() < 0.7 else 0.4)
+            ch["ws"] = self._gen_w(rng, wk, m)
+            changes.append(ch)
+        opened = open_triggers()
+        return {"kind": "mutate", "d": d, "binning": binning, "data": rows, "ints": ints, "weights": ws, "wkind": wk,
+                "names": [f"col{i}" for i in range(d)], "dropna": rng.random() < 0.85, "changes": changes,
+                "mix": [rng.randrange(6) for _ in range(len(changes) + 1)], "open": opened,
+                "tags": [f"d:{d}", "kind:mutate", "mutate:ints" if ints else "mutate:floats"] + [f"change:{c['op']}" for c in changes]
+                + [f"open:{t}" for t in opened]}
+
+    def gen_nested(self, rng):
+        """an r x c table of numbers (and its transpose) as nested python containers of every outer / inner type"""
+        r = rng.choice([1, 2, 2, 2, 3, 3, 4])
+        c = rng.choice([1, 2, 2, 3, 3, 4, 5, 6])
+        ints = rng.random() < 0.3
+        binning, axes_pairs = self._gen_axes(rng, 1)
+        flat = self._gen_rows(rng, axes_pairs, r * c, ints, 0 if ints else rng.choice([0, 0, 0.12]))
+        table = [[flat[i * c + j][0] for j in range(c)] for i in range(r)]
+        ws, wk = gen1.weights_for(rng, r * c, kinds=["none", "none", "int", "dyadic"])
+        opened = open_triggers()
+        return {"kind": "nested", "d": 1, "binning": binning, "table": table, "ints": ints,
+                "weights": None if ws is None else [ws[i * c:(i + 1) * c] for i in range(r)], "wkind": wk,
+                "mixed": ["tuple"] + [rng.choice(["tuple", "list", "array"]) for _ in range(max(r, c) - 1)],
+                "dropna": rng.random() < 0.85, "open": opened,
+                "tags": ["d:1", "kind:nested", f"nested:{r}x{c}", "nested:ints" if ints else "nested:floats"] + [f"open:{t}" for t in opened]}
+
     # ------------------------------------------------------------------ the implementation
     def run_impl(self, case):
         if case["kind"] == "dask":
             return self.run_dask(case)
+        if case["kind"] == "mutate":
+            return self.run_mutate(case)
+        if case["kind"] == "nested":
+            return self.run_nested(case)
         import dask.array as da
         import pandas as pd
         import polars as pl
@@ -632,18 +751,465 @@ class C17:
             outcome("dask_h_invalid_method", lambda: pdask.histogramdd(arr(p, cp), "fixed_width", dask_method="no_such_scheduler", **kwb))
         return {"outs": out, "log": log, "why": why}
 
+    # ------------------------------------------------------------------ containers changed in place between two calls
+    def run_mutate(self, case):
+        """every mutable container is built once, handed to physt, changed in place, handed to physt again (same object, same
+        form -- and once with the form varying from call to call). Each call is paired with the histogram of the numpy array that
+        is built, at that moment, from the content the container is *expected* to have (kept in plain python lists here, never
+        read back from the container); the container's content is read before and after each call."""
+        import pandas as pd
+        import polars as pl
+        import physt  # noqa: F401
+        from physt import h, h1, h2, h3
+        import physt.compat.pandas  # noqa: F401
+        import physt.compat.polars  # noqa: F401
+        d, names, dropna, ints, wk = case["d"], case["names"], case["dropna"], case["ints"], case["wkind"]
+        opened = set(case.get("open", []))
+        out = {"results": {}, "refusals": {}, "pairs": {}, "outcomes": {}, "touched": []}
+        log, why = [], {}
+        kw = dict(dropna=dropna)
+        snap = s1 if d == 1 else sn
+        dt = int if ints else float
+        n0 = len(case["data"])
+        has_w = case["weights"] is not None
+
+        def mkb():
+            bs = [impl1.mk_binning(b) for b in case["binning"]]
+            return bs[0] if d == 1 else bs
+
+        def num(v):
+            return float("nan") if v is None else v
+
+        def arr(rows):
+            return np.array([[num(v) for v in r] for r in rows], dtype=dt).reshape(len(rows), d)
+
+        def warr(ws):
+            return None if ws is None else np.array(ws, dtype=wk)
+
+        def run(name, f):
+            try:
+                return snap(f())
+            except Exception as e:
+                log.append(f"{name}: {type(e).__name__}: {e}"[:160])
+                return "REFUSED"
+
+        refs = {}
+
+        def ref_for(rows, ws, wdt=None):
+            """physt on the numpy array of this content (weights in the dtype their container holds them in)"""
+            key = json.dumps([rows, ws, wdt])
+            if key not in refs:
+                A, w = arr(rows), warr(ws) if ws is None or wdt is None else np.array(ws, dtype=wdt)
+                refs[key] = run("ref", (lambda: h1(A[:, 0], mkb(), weights=w, **kw)) if d == 1 else (lambda: h(A, mkb(), weights=w, **kw)))
+            return refs[key]
+
+        def same(a, b):
+            return all((x is None and y is None) or (x is not None and y is not None and x.shape == y.shape and
+                                                     np.array_equal(x, y, equal_nan=True)) for x, y in zip(a, b))
+
+        def polars_w(ws):
+            """weights beside a polars container: a polars Series (int ones only while that entry form is open)"""
+            if ws is None:
+                return None
+            if wk == "int64" and "polars_int_weights" not in opened:
+                return warr(ws)
+            return pl.Series("w", warr(ws))
+
+        def wfloat(w):
+            return None if w is None else np.asarray(w.to_numpy() if hasattr(w, "to_numpy") else w, dtype=float).ravel()
+
+        drivers = []
+
+        def D(name, build, forms, apply, content, wdt=None):
+            drivers.append((name, build, forms, apply, content, wdt))
+
+        def half(i, m):
+            return i // m, i % m
+        if d == 1:
+            b1 = mkb
+            # numpy arrays: element assignment (a numpy array cannot grow in place)
+            def np_apply(st, ch):
+                if ch["op"] != "set":
+                    return False
+                st["x"][ch["at"]] = num(ch["rows"][0][0])
+                if has_w:
+                    st["w"][ch["at"]] = ch["ws"][0]
+                return True
+            D("numpy", lambda rows, ws: {"x": arr(rows)[:, 0].copy(), "w": warr(ws)},
+              [("h1", lambda st: h1(st["x"], b1(), weights=st["w"], **kw), None)],
+              np_apply, lambda st: (st["x"].astype(float), wfloat(st["w"])))
+
+            def np2_apply(st, ch):
+                if ch["op"] != "set":
+                    return False
+                ij = half(ch["at"], st["x"].shape[1])
+                st["x"][ij] = num(ch["rows"][0][0])
+                if has_w:
+                    st["w"][ij] = ch["ws"][0]
+                return True
+            if n0 % 2 == 0 and n0 >= 4:
+                D("numpy2d", lambda rows, ws: {"x": arr(rows)[:, 0].reshape(2, -1).copy(), "w": None if ws is None else warr(ws).reshape(2, -1).copy()},
+                  [("h1", lambda st: h1(st["x"], b1(), weights=st["w"], **kw), None)],
+                  np2_apply, lambda st: (st["x"].astype(float).ravel(), wfloat(st["w"])))
+
+            # python lists: item assignment, append, extend
+            def list_apply(st, ch):
+                vs = [num(r[0]) for r in ch["rows"]]
+                if ch["op"] == "set":
+                    st["x"][ch["at"]] = vs[0]
+                    if has_w:
+                        st["w"][ch["at"]] = ch["ws"][0]
+                elif ch["op"] == "append":
+                    for k, v in enumerate(vs):
+                        st["x"].append(v)
+                        if has_w:
+                            st["w"].append(ch["ws"][k])
+                else:
+                    st["x"].extend(vs)
+                    if has_w:
+                        st["w"].extend(ch["ws"])
+                return True
+            lforms = [("h1", lambda st: h1(st["x"], b1(), weights=st["w"], **kw), None),
+                      ("iterator", lambda st: h1(iter(st["x"]), b1(), weights=st["w"], **kw), None)]
+            if "tuple_form_args" in opened:
+                lforms.append(("tuple_form", lambda st: h1(("grp", st["x"]), b1(), weights=st["w"], **kw), None))
+            D("list", lambda rows, ws: {"x": [num(r[0]) for r in rows], "w": None if ws is None else list(ws)}, lforms, list_apply,
+              lambda st: (np.array(st["x"], dtype=float), wfloat(st["w"])))
+
+            def list2_apply(st, ch):
+                if ch["op"] != "set":
+                    return False
+                i, j = half(ch["at"], len(st["x"][0]))
+                st["x"][i][j] = num(ch["rows"][0][0])
+                if has_w:
+                    st["w"][i][j] = ch["ws"][0]
+                return True
+            if n0 % 2 == 0 and n0 >= 4:
+                D("list2d", lambda rows, ws: {"x": arr(rows)[:, 0].reshape(2, -1).tolist(), "w": None if ws is None else warr(ws).reshape(2, -1).tolist()},
+                  [("h1", lambda st: h1(st["x"], b1(), weights=st["w"], **kw), None)],
+                  list2_apply, lambda st: (np.array(st["x"], dtype=float).ravel(), wfloat(st["w"])))
+
+            # pandas Series: .iloc assignment, enlargement through .loc
+            def ps_apply(st, ch):
+                if ch["op"] == "set":
+                    st["s"].iloc[ch["at"]] = num(ch["rows"][0][0])
+                    if has_w:
+                        st["w"].iloc[ch["at"]] = ch["ws"][0]
+                else:
+                    for k, r in enumerate(ch["rows"]):
+                        st["s"].loc[len(st["s"])] = num(r[0])
+                        if has_w:
+                            st["w"].loc[len(st["w"])] = ch["ws"][k]
+                return True
+            D("pandas_series", lambda rows, ws: {"s": pd.Series(arr(rows)[:, 0], name=names[0]), "w": None if ws is None else pd.Series(warr(ws))},
+              [("h1", lambda st: h1(st["s"], b1(), weights=st["w"], **kw), names[0]),
+               ("accessor_h1", lambda st: st["s"].physt.h1(b1(), weights=st["w"], **kw), names[0]),
+               ("accessor_histogram", lambda st: st["s"].physt.histogram(b1(), weights=st["w"], **kw), names[0])],
+              ps_apply, lambda st: (st["s"].to_numpy(dtype=float), wfloat(st["w"])))
+
+            # pandas DataFrame (data column + weight column): .iloc assignment, enlargement through .loc
+            def pdf_apply(st, ch):
+                df = st["df"]
+                if ch["op"] == "set":
+                    df.iloc[ch["at"], 0] = num(ch["rows"][0][0])
+                    if has_w:
+                        df.iloc[ch["at"], 1] = ch["ws"][0]
+                else:
+                    for k, r in enumerate(ch["rows"]):
+                        df.loc[len(df)] = [num(r[0]), ch["ws"][k] if has_w else 1]
+                return True
+            D("pandas_df", lambda rows, ws: {"df": pd.DataFrame({names[0]: arr(rows)[:, 0], "w": np.ones(len(rows), dtype=int) if ws is None else warr(ws)})},
+              [("accessor_h1", lambda st: st["df"].physt.h1(names[0], b1(), weights="w" if has_w else None, **kw), names[0]),
+               ("accessor_histogram", lambda st: st["df"].physt.histogram(names[0], b1(), weights=st["df"]["w"].to_numpy() if has_w else None, **kw), names[0]),
+               ("column", lambda st: h1(st["df"][names[0]], b1(), weights=st["df"]["w"] if has_w else None, **kw), names[0])],
+              pdf_apply, lambda st: (st["df"][names[0]].to_numpy(dtype=float), wfloat(st["df"]["w"]) if has_w else None),
+              # a row of a float and an int written through .loc turns the int column into a float column
+              wdt=lambda st: str(st["df"]["w"].dtype))
+
+            # polars Series: item assignment, append, extend
+            def pl_apply(st, ch):
+                s, w = st["s"], st["w"]
+                if ch["op"] == "set":
+                    s[ch["at"]] = num(ch["rows"][0][0])
+                    if has_w:
+                        w[ch["at"]] = ch["ws"][0]
+                    return True
+                more = pl.Series(names[0], arr(ch["rows"])[:, 0])
+                (s.append if ch["op"] == "append" else s.extend)(more)
+                if has_w:
+                    if isinstance(w, pl.Series):
+                        (w.append if ch["op"] == "append" else w.extend)(pl.Series("w", warr(ch["ws"])))
+                    else:
+                        st["w"] = np.concatenate([w, warr(ch["ws"])])
+                return True
+            D("polars_series", lambda rows, ws: {"s": pl.Series(names[0], arr(rows)[:, 0]), "w": polars_w(ws)},
+              [("h1", lambda st: h1(st["s"], b1(), weights=st["w"], **kw), names[0]),
+               ("accessor_h1", lambda st: st["s"].physt.h1(b1(), weights=st["w"], **kw), names[0])],
+              pl_apply, lambda st: (st["s"].to_numpy().astype(float), wfloat(st["w"])))
+        else:
+            # numpy (n, d) arrays, C- and Fortran-ordered: row assignment
+            def npn_apply(st, ch):
+                if ch["op"] != "set":
+                    return False
+                st["A"][ch["at"], :] = [num(v) for v in ch["rows"][0]]
+                if has_w:
+                    st["w"][ch["at"]] = ch["ws"][0]
+                return True
+            nforms = [("h", lambda st: h(st["A"], mkb(), weights=st["w"], **kw), None)]
+            if d == 2:
+                nforms.append(("h2_columns", lambda st: h2(st["A"][:, 0], st["A"][:, 1], mkb(), weights=st["w"], **kw), None))
+            if d == 3:
+                nforms.append(("h3", lambda st: h3(st["A"], mkb(), weights=st["w"], **kw), None))
+            D("numpy", lambda rows, ws: {"A": arr(rows).copy(), "w": warr(ws)}, nforms, npn_apply,
+              lambda st: (st["A"].astype(float), wfloat(st["w"])))
+            D("numpy_F", lambda rows, ws: {"A": np.asfortranarray(arr(rows)), "w": warr(ws)}, nforms[:1], npn_apply,
+              lambda st: (np.ascontiguousarray(st["A"]).astype(float), wfloat(st["w"])))
+
+            # list of rows: element assignment, append, extend
+            def ln_apply(st, ch):
+                rows = [[num(v) for v in r] for r in ch["rows"]]
+                if ch["op"] == "set":
+                    for j, v in enumerate(rows[0]):
+                        st["x"][ch["at"]][j] = v
+                    if has_w:
+                        st["w"][ch["at"]] = ch["ws"][0]
+                elif ch["op"] == "append":
+                    for k, r in enumerate(rows):
+                        st["x"].append(r)
+                        if has_w:
+                            st["w"].append(ch["ws"][k])
+                else:
+                    st["x"].extend(rows)
+                    if has_w:
+                        st["w"].extend(ch["ws"])
+                return True
+            D("list", lambda rows, ws: {"x": [[num(v) for v in r] for r in rows], "w": None if ws is None else list(ws)},
+              [("h", lambda st: h(st["x"], mkb(), weights=st["w"], **kw), None)], ln_apply,
+              lambda st: (np.array(st["x"], dtype=float).reshape(len(st["x"]), d), wfloat(st["w"])))
+            if d == 2:
+                # two lists of coordinates to h2
+                def lc_apply(st, ch):
+                    rows = [[num(v) for v in r] for r in ch["rows"]]
+                    if ch["op"] == "set":
+                        for j in range(2):
+                            st["c"][j][ch["at"]] = rows[0][j]
+                        if has_w:
+                            st["w"][ch["at"]] = ch["ws"][0]
+                    else:
+                        for j in range(2):
+                            st["c"][j].extend(r[j] for r in rows)
+                        if has_w:
+                            st["w"].extend(ch["ws"])
+                    return True
+                D("list_columns", lambda rows, ws: {"c": [[num(r[j]) for r in rows] for j in range(2)], "w": None if ws is None else list(ws)},
+                  [("h2", lambda st: h2(st["c"][0], st["c"][1], mkb(), weights=st["w"], **kw), None)], lc_apply,
+                  lambda st: (np.array(st["c"], dtype=float).T, wfloat(st["w"])))
+
+            # pandas DataFrame: .iloc assignment, enlargement through .loc
+            def pdn_apply(st, ch):
+                df = st["df"]
+                if ch["op"] == "set":
+                    for j, v in enumerate(ch["rows"][0]):
+                        df.iloc[ch["at"], j] = num(v)
+                    if has_w:
+                        st["w"].iloc[ch["at"]] = ch["ws"][0]
+                else:
+                    for k, r in enumerate(ch["rows"]):
+                        df.loc[len(df)] = [num(v) for v in r]
+                        if has_w:
+                            st["w"].loc[len(st["w"])] = ch["ws"][k]
+                return True
+            pforms = [("h", lambda st: h(st["df"], mkb(), weights=st["w"], **kw), names),
+                      ("accessor_histogram", lambda st: st["df"].physt.histogram(None, mkb(), weights=st["w"], **kw), names)]
+            if d == 2:
+                pforms += [("accessor_h2", lambda st: st["df"].physt.h2(names[0], names[1], mkb(), weights=st["w"], **kw), names),
+                           ("h2_series", lambda st: h2(st["df"][names[0]], st["df"][names[1]], mkb(), weights=st["w"], **kw), names)]
+            D("pandas_df", lambda rows, ws: {"df": pd.DataFrame(arr(rows), columns=names), "w": None if ws is None else pd.Series(warr(ws))},
+              pforms, pdn_apply, lambda st: (st["df"].to_numpy(dtype=float), wfloat(st["w"])))
+
+            # polars DataFrame: item assignment, extend, vstack(in_place=True)
+            def frame(rows):
+                A = arr(rows)
+                return pl.DataFrame({nm: A[:, j] for j, nm in enumerate(names)})
+
+            def pln_apply(st, ch):
+                pdf, w = st["df"], st["w"]
+                if ch["op"] == "set":
+                    for j, v in enumerate(ch["rows"][0]):
+                        pdf[ch["at"], names[j]] = num(v)
+                    if has_w:
+                        w[ch["at"]] = ch["ws"][0]
+                    return True
+                if ch["op"] == "append":
+                    pdf.vstack(frame(ch["rows"]), in_place=True)
+                else:
+                    pdf.extend(frame(ch["rows"]))
+                if has_w:
+                    if isinstance(w, pl.Series):
+                        (w.append if ch["op"] == "append" else w.extend)(pl.Series("w", warr(ch["ws"])))
+                    else:
+                        st["w"] = np.concatenate([w, warr(ch["ws"])])
+                return True
+            qforms = [("h", lambda st: h(st["df"], mkb(), weights=st["w"], **kw), names),
+                      ("accessor_h", lambda st: st["df"].physt.h(bins=mkb(), weights=st["w"], **kw), names)]
+            if d == 2:
+                qforms.append(("h2_series", lambda st: h2(st["df"][names[0]], st["df"][names[1]], mkb(), weights=st["w"], **kw), names))
+            D("polars_df", lambda rows, ws: {"df": frame(rows), "w": polars_w(ws)}, qforms, pln_apply,
+              lambda st: (st["df"].to_numpy().astype(float).reshape(st["df"].height, d), wfloat(st["w"])))
+
+        changes = case["changes"]
+        for dname, build, forms, apply, content, wdt in drivers:
+            plans = [(fname, [k] * (len(changes) + 1)) for k, (fname, _, _) in enumerate(forms)]
+            if len(forms) > 1:
+                plans.append(("mixed", [m % len(forms) for m in case["mix"]][:len(changes) + 1]))
+            for pname, plan in plans:
+                rows = [list(r) for r in case["data"]]
+                ws = None if not has_w else list(case["weights"])
+                st = build(rows, ws)
+                for step in range(len(changes) + 1):
+                    fname, f, axn = forms[plan[step]]
+                    name = f"mutate_{dname}.{pname}:call{step}" + (f"({fname})" if pname == "mixed" else "")
+                    before = content(st)
+                    got = run(name, lambda: f(st))
+                    after = content(st)
+                    if not same(before, after):
+                        out["touched"].append(f"{name}: content {before[0].tolist()} weights {None if before[1] is None else before[1].tolist()} "
+                                              f"became {after[0].tolist()} weights {None if after[1] is None else after[1].tolist()}"[:300])
+                    has_nan = any(v is None for r in rows for v in r)
+                    out["pairs"][name] = {"got": got, "ref": ref_for(rows, ws, None if wdt is None else wdt(st)), "names": axn, "must": True,
+                                          "invalid": has_nan and not dropna, "after": step}
+                    if step < len(changes):
+                        ch = changes[step]
+                        if (ch["op"] != "set" or ch["at"] < len(rows)) and apply(st, ch):
+                            apply_change(rows, ws, ch)
+                        now = content(st)
+                        exp = (arr(rows).astype(float) if d > 1 else arr(rows)[:, 0].astype(float), None if ws is None else warr(ws).astype(float))
+                        if not same(now, exp) and same(before, after):
+                            raise AssertionError(f"harness: {dname} holds {now} after {ch}, expected {exp}")
+        rows, ws = final_content(case)
+        out["results"]["array"] = ref_for(rows, ws)
+        return {"outs": out, "log": log, "why": why}
+
+    # ------------------------------------------------------------------ nested python containers
+    def run_nested(self, case):
+        """an r x c table (and its transpose) as tuple / list of tuples / lists / arrays / a mixture: h1 takes every entry as one
+        observation, h the rows as observations, h2 two containers as the two coordinates; the reference is the same call on
+        np.asarray(container)"""
+        from physt import h, h1, h2, h3
+        dropna, ints, wk = case["dropna"], case["ints"], case["wkind"]
+        opened = set(case.get("open", []))
+        out = {"results": {}, "refusals": {}, "pairs": {}, "outcomes": {}}
+        log, why = [], {}
+        kw = dict(dropna=dropna)
+        dt = int if ints else float
+
+        def b1():
+            return impl1.mk_binning(case["binning"][0])
+
+        def num(v):
+            return float("nan") if v is None else v
+
+        def s1name(hh):
+            s = s1(hh)
+            s["name"] = None if hh.name is None else str(hh.name)
+            return s
+
+        def snname(hh):
+            s = sn(hh)
+            s["name"] = None if hh.name is None else str(hh.name)
+            return s
+
+        def run(name, f, snap):
+            try:
+                return snap(f())
+            except Exception as e:
+                log.append(f"{name}: {type(e).__name__}: {e}"[:160])
+                return "REFUSED"
+
+        def outcome(name, f):
+            try:
+                f(); out["outcomes"][name] = "accepted"
+            except Exception as e:
+                out["outcomes"][name] = "REFUSED"
+                log.append(f"{name}: {type(e).__name__}: {e}"[:160])
+
+        def inner_of(kind, i, row, dtype):
+            k = case["mixed"][i % len(case["mixed"])] if kind == "mixed" else kind
+            return tuple(row) if k == "tuple" else list(row) if k == "list" else np.array(row, dtype=dtype)
+
+        def make(table, outer, inner, dtype):
+            return (tuple if outer == "tuple" else list)(inner_of(inner, i, row, dtype) for i, row in enumerate(table))
+        T = [[num(v) for v in row] for row in case["table"]]
+        W = case["weights"]
+        has_nan = any(v is None for row in case["table"] for v in row)
+        invalid = has_nan and not dropna
+        for orient, table, wtable in (("", T, W), ("T", [list(c) for c in zip(*T)], None if W is None else [list(c) for c in zip(*W)])):
+            r, c = len(table), len(table[0])
+            if orient == "T" and (r, c) == (len(T), len(T[0])) and table == T:
+                continue
+            A = np.array(table, dtype=dt)
+            wA = None if wtable is None else np.array(wtable, dtype=wk)
+            ref1 = run("ref1", lambda: h1(A, b1(), weights=wA, **kw), s1name)
+            ref1_plain = run("ref1_plain", lambda: h1(A, b1(), **kw), s1name)
+            if orient == "":
+                out["results"]["array"] = ref1
+            refn = run("refn", lambda: h(A, [b1() for _ in range(c)], weights=None if wA is None else wA[:, 0], **kw), snname) if c in (2, 3) else None
+            ref2 = run("ref2", lambda: h2(A[0], A[1], [b1(), b1()], weights=None if wA is None else wA[0], **kw), snname) if r >= 2 else None
+            ref2n = run("ref2n", lambda: h2(A, A[::-1], [b1(), b1()], **kw), snname) if r >= 2 else None
+            for outer in ("tuple", "list"):
+                for inner in ("tuple", "list", "array", "mixed"):
+                    if inner == "mixed" and len({case["mixed"][i % len(case["mixed"])] for i in range(r)}) == 1:
+                        continue
+                    form = f"nested_{outer}_of_{inner}"
+                    shape = f"{r}x{c}"
+                    X = make(table, outer, inner, dt)
+                    wX = None if wtable is None else make(wtable, outer, inner, wk)
+
+                    def P(what, f, ref, snap, **more):
+                        out["pairs"][f"{form}.{what}:{shape}"] = {"got": run(f"{form}.{what}:{shape}", f, snap), "ref": ref, "names": None,
+                                                                 "must": True, "invalid": invalid, **more}
+                    P("h1", lambda: h1(X, b1(), weights=wX, **kw), ref1, s1name, hname=None)
+                    if wX is not None:
+                        P("h1_array_weights", lambda: h1(X, b1(), weights=wA, **kw), ref1, s1name, hname=None)
+                        P("h1_no_weights", lambda: h1(X, b1(), **kw), ref1_plain, s1name, hname=None)
+                    if "tuple_form_args" in opened or (wX is None and dropna):
+                        P("h1_named", lambda: h1(("grp", X), b1(), weights=wX, **kw), ref1, s1name, hname="grp")
+                    if refn is not None:
+                        P("h", lambda: h(X, [b1() for _ in range(c)], weights=None if wX is None else [row[0] for row in wtable], **kw), refn, snname,
+                          hname=None)
+                    if ref2 is not None:
+                        P("h2_rows", lambda: h2(X[0], X[1], [b1(), b1()], weights=None if wX is None else wX[0], **kw), ref2, snname, hname=None)
+                        P("h2_nested", lambda: h2(X, X[::-1], [b1(), b1()], **kw), ref2n, snname, hname=None)
+                    if inner == "array" and r == 3 and c >= 1:
+                        # three arrays of coordinates to h3: the histogram of the (c, 3) array of their columns
+                        ref3 = run("ref3", lambda: h(A.T, [b1(), b1(), b1()], weights=None if wA is None else wA[0], **kw), snname)
+                        P("h3_columns", lambda: h3(X, [b1(), b1(), b1()], weights=None if wA is None else wA[0], **kw), ref3, snname, hname=None)
+            # not pinned by the property: a table whose rows differ in length, a (number, values) pair -- recorded
+            if r >= 2 and c >= 2 and orient == "":
+                ragged = tuple(tuple(row) for row in table[:-1]) + (tuple(table[-1][:-1]),)
+                outcome(f"nested_ragged:{min(r, 3)}rows", lambda: h1(ragged, b1(), **kw))
+                outcome("tuple_number_values", lambda: h1((table[0][0], tuple(table[-1])), b1(), **kw))
+        return {"outs": out, "log": log, "why": why}
+
     def model_case(self, case, io):
-        if case["kind"] != "containers":
+        """the reference call (plain numpy array) as a construction of the model; for the 'mutate' stream the array built from the
+        content after the last change, for the 'nested' stream the table read row by row"""
+        if case["kind"] not in ("containers", "mutate", "nested"):
             return None
         ref = io["outs"]["results"].get("array")
         if ref == "REFUSED" or ref is None:
             return None
-        ws = case["weights"]
+        data, ws = case.get("data"), case["weights"]
+        if case["kind"] == "mutate":
+            data, ws = final_content(case)
+        elif case["kind"] == "nested":
+            data = [[v] for row in case["table"] for v in row]
+            ws = None if ws is None else [w for row in ws for w in row]
         if case["d"] == 1:
-            op = {"op": "construct", "out": 0, "binning": case["binning"][0], "data": [None if r[0] is None else rs(r[0]) for r in case["data"]],
+            op = {"op": "construct", "out": 0, "binning": case["binning"][0], "data": [None if r[0] is None else rs(r[0]) for r in data],
                   "weights": None if ws is None else [rs(w) for w in ws], "wkind": case["wkind"], "dropna": case["dropna"]}
             return {"kind": "hist1", "ops": [op]}
-        op = {"op": "construct", "out": 0, "axes": case["binning"], "rows": gennd.enc_rows(case["data"]),
+        op = {"op": "construct", "out": 0, "axes": case["binning"], "rows": gennd.enc_rows(data),
               "weights": None if ws is None else [rs(w) for w in ws], "wkind": case["wkind"], "dropna": case["dropna"]}
         return {"kind": "histn", "ops": [op]}
 
@@ -676,7 +1242,7 @@ class C17:
             got, ref = p["got"], p["ref"]
             dask = name.startswith("dask_h")
             if not isinstance(ref, dict):
-                if invalid_ref and isinstance(got, dict):
+                if (invalid_ref or p.get("invalid")) and isinstance(got, dict):
                     fails.append(f"accepted_invalid: {name} accepted NaN with dropna=False")
                 continue
             if got == "REFUSED":
@@ -691,8 +1257,12 @@ class C17:
             for f in fields:
                 if got[f] != ref[f]:
                     fails.append((f"dask_differs: {name}: {f} = {got[f]}, the whole numpy array (adaptive=True) gives {ref[f]}" if dask else
+                                  f"container_differs: {name}: {f} = {got[f]}, the numpy array built from the container's content after "
+                                  f"{p['after']} in-place change(s) gives {ref[f]}" if p.get("after") else
                                   f"container_differs: {name}: {f} = {got[f]}, the numpy array gives {ref[f]}")[:400])
                     break
+            if "hname" in p and got.get("name") != p["hname"]:
+                fails.append(f"histogram_name: {name} is named {got.get('name')!r}, expected {p['hname']!r}")
             if p["names"] is not None:
                 gn = got["axis_name"] if "axis_name" in got else got["names"]
                 if gn != p["names"]:
@@ -706,6 +1276,14 @@ class C17:
             for name, r in o["refusals"].items():
                 if r != "REFUSED":
                     fails.append(f"accepted_invalid: {name} was accepted")
+            return fails[:6]
+        if case["kind"] in ("mutate", "nested"):
+            # the same container again after an in-place change / a nested container: the histogram of the numpy array with the
+            # content the container has at the moment of the call (axis names from the Series / columns; the histogram's name
+            # only from a (name, values) pair); and no call changes the container handed to it
+            for t in o.get("touched", []):
+                fails.append("container_changed: the call changed the container handed to it: " + t)
+            self._pairs(o, io["log"], fails)
             return fails[:6]
         res = o["results"]
         ref = res.get("array")
@@ -812,7 +1390,14 @@ class C17:
         t = list(case["tags"])
         forms = [k for k, v in o["results"].items() if k not in ("array", "ref_hist", "h2_ref_noweights")] + list(o["pairs"])
         t += [f"containers:{len(forms)}"] + (["weights"] if case["weights"] and case["kind"] == "containers" else [])
-        t += [f"container:{k.split(':')[0]}" for k in forms]
+        if case["kind"] in ("mutate", "nested"):
+            t += sorted({f"container:{k.split(':')[0]}" for k in forms})      # one per container and form, not per call
+            if case["weights"]:
+                t.append(f"{case['kind']}:weights")
+            if any(v is None for r in case.get("data", case.get("table")) for v in r):
+                t.append(f"{case['kind']}:nan")
+        else:
+            t += [f"container:{k.split(':')[0]}" for k in forms]
         t += [f"bad:{k}" for k in o["refusals"]]
         t += [f"outcome:{k}:{'refused' if v == 'REFUSED' else 'accepted'}" for k, v in o["outcomes"].items()]
         t += [f"outcome:{k}:{'refused' if p['got'] == 'REFUSED' else 'accepted'}" for k, p in o["pairs"].items() if not p["must"]]
@@ -846,6 +1431,63 @@ class C17:
                 c = copy.deepcopy(case)
                 del c["parts"][i]
                 del c["colparts"][i]
+                yield c
+            return
+        if case["kind"] == "mutate":
+            # fewer changes, shorter changes, fewer initial rows, no weights
+            for i in reversed(range(len(case["changes"]))):
+                if len(case["changes"]) > 1:
+                    c = copy.deepcopy(case)
+                    del c["changes"][i]
+                    del c["mix"][i + 1]
+                    yield c
+            for i, ch in enumerate(case["changes"]):
+                for j in range(len(ch["rows"])):
+                    if len(ch["rows"]) > 1:
+                        c = copy.deepcopy(case)
+                        del c["changes"][i]["rows"][j]
+                        if ch["ws"] is not None:
+                            del c["changes"][i]["ws"][j]
+                        yield c
+            for j in range(len(case["data"])):
+                if len(case["data"]) <= 1 or any(ch["op"] == "set" and ch["at"] == j for ch in case["changes"]):
+                    continue
+                c = copy.deepcopy(case)
+                del c["data"][j]
+                if c["weights"] is not None:
+                    del c["weights"][j]
+                for ch in c["changes"]:
+                    if ch["op"] == "set" and ch["at"] > j:
+                        ch["at"] -= 1
+                yield c
+            if case["weights"] is not None:
+                c = copy.deepcopy(case)
+                c["weights"], c["wkind"] = None, None
+                for ch in c["changes"]:
+                    ch["ws"] = None
+                yield c
+            return
+        if case["kind"] == "nested":
+            # fewer rows, fewer columns, no weights
+            r, cc = len(case["table"]), len(case["table"][0])
+            for i in range(r):
+                if r > 1:
+                    c = copy.deepcopy(case)
+                    del c["table"][i]
+                    if c["weights"] is not None:
+                        del c["weights"][i]
+                    yield c
+            for j in range(cc):
+                if cc > 1:
+                    c = copy.deepcopy(case)
+                    for row in c["table"]:
+                        del row[j]
+                    for row in c["weights"] or []:
+                        del row[j]
+                    yield c
+            if case["weights"] is not None:
+                c = copy.deepcopy(case)
+                c["weights"], c["wkind"] = None, None
                 yield c
             return
         if case["kind"] != "containers":
